@@ -271,6 +271,10 @@ ares_status_t ares_init_by_options(ares_channel_t            *channel,
     if (optmask != 0) {
       return ARES_ENODATA; /* LCOV_EXCL_LINE: DefensiveCoding */
     }
+    /* The Query Cache is on by default, same as when options are passed
+     * without ARES_OPT_QUERY_CACHE (see below) */
+    channel->optmask        = ARES_OPT_QUERY_CACHE;
+    channel->qcache_max_ttl = 3600;
     return ARES_SUCCESS;
   }
 
